@@ -64,6 +64,14 @@ PSY_INTERNAL:
 
     TranslationUnitSyntax* parse();
 
+    /*
+     * A parse that fails is to be diagnosed: if a rule gave up on the tokens
+     * from some token on and, when parsing is over, nothing at all has been
+     * diagnosed, a generic diagnostic is reported at that token.
+     */
+    void noteFailedParse(LexedTokens::IndexType tkIdx);
+    void diagnoseFailedParseIfUndiagnosed();
+
     bool detectedAnyAmbiguity() const;
 
 private:
@@ -95,6 +103,8 @@ private:
     const Backtracker* backtracker_;
     bool willBacktrack() const;
 
+    LexedTokens::IndexType failedParseTkIdx_;
+
     struct DiagnosticsReporter
     {
         DiagnosticsReporter(Parser* parser)
@@ -121,6 +131,7 @@ private:
         static const std::string ID_of_ExpectedFeature;
 
         /* Terminal */
+        void UnexpectedTokensOfFailedParse(LexedTokens::IndexType tkIdx);
         void ExpectedToken(SyntaxKind syntaxK);
         void ExpectedTokenWithin(const std::vector<SyntaxKind>& validTokens);
         void ExpectedTokenOfCategory(SyntaxToken::Category category, const std::string& id);
@@ -128,6 +139,7 @@ private:
         void ExpectedTokenOfCategoryConstant();
         void ExpectedTokenOfCategoryStringLiteral();
         static const std::string ID_of_ExpectedToken;
+        static const std::string ID_of_UnexpectedTokensOfFailedParse;
         static const std::string ID_of_ExpectedTokenWithin;
         static const std::string ID_of_ExpectedTokenOfCategoryIdentifier;
         static const std::string ID_of_ExpectedTokenOfCategoryConstant;
